@@ -134,7 +134,7 @@ def check(chk):
     if any(s["id"] not in allowed for s in scen):
         raise C.Undecided("GoSyncProg printed no outcome for some scenario")
 
-    run_impl_model(chk, thorough)
+    implout = run_impl_model(chk, thorough, scen_path, allowed, byid)
 
     binpath = sched.build(rd, "semasched")
     shards = C.NCPU
@@ -166,6 +166,12 @@ def check(chk):
                 hid = len(traces) + 1
                 traces.append(to_trace(sc, h, hid))
                 trace_src[hid] = (sc, h, mode, r["id"])
+    real_out = {}
+    for mode, results in runs:
+        for r in results:
+            real_out.setdefault(r["id"], set()).update(r["outcomes"].keys())
+    same = sum(1 for sid in implout if real_out.get(sid, set()) == implout[sid])
+    chk.cov["conformance_real_vs_SemaImpl"] = {"scenarios_compared": len(implout), "identical_outcome_sets": same}
     cap = 40000 if thorough else 5000
     if len(traces) > cap:
         rng2 = random.Random(sd * 7 + 1)
@@ -231,17 +237,23 @@ def check(chk):
                         "real-pthread runs of compiled programs explore only the schedules the OS happens to produce"]
 
 
-def run_impl_model(chk, thorough):
+def run_impl_model(chk, thorough, scen_path, allowed, byid):
+    """SemaImpl (sema_llgo.go as PlusCal, atomics as steps) over every single-semaphore scenario of <= 4 threads: its terminal
+    outcomes must be outcomes GoSync allows.  Design-level only: reported, never a verdict."""
     rd = chk.rd.path
-    if not os.path.exists(os.path.join(SPEC, "SemaImpl.tla")):
-        return
-    for cfg in sorted(f for f in os.listdir(SPEC) if f.startswith("impl_") and f.endswith(".cfg") and (thorough or "_q" in f)):
-        mod = "NotifyImpl" if "notify" in cfg else ("MutexOverSema" if "mutex" in cfg else "SemaImpl")
-        res = C.tlc(SPEC, mod, cfg, rd, timeout=3000, parse_json=False)
-        chk.add_tlc(res, mod + "/" + cfg)
-        chk.cov.setdefault("impl_model", []).append({"cfg": cfg, "ok": res.ok, "violation": res.violation, "states": res.distinct})
-        if not res.ok:
-            C.log("note: %s/%s: %s (design-level; the real-code runs decide)" % (mod, cfg, res.violation))
+    cfg = os.path.join(rd, "impl_run.cfg")
+    C.write_cfg(cfg, constants={"SleepOnLostRace": "FALSE", "TicketBug": "FALSE", "SpuriousBudget": 1, "defaultInitValue": 0},
+                invariants=["WaitersSane", "NotifyBounded", "Emit"])
+    res = C.tlc(SPEC, "SemaImpl", cfg, rd, timeout=3000, copy_extra=[scen_path], parse_json=False)
+    chk.add_tlc(res, "SemaImpl")
+    implout = {}
+    for rec in C.tlc_printed_iter(res):
+        implout.setdefault(rec["id"], set()).add(outcome_key_from_tlc(rec, len(byid[rec["id"]]["threads"])))
+    bad = [(short(byid[i]), o) for i, outs in implout.items() for o in outs if o not in allowed[i]]
+    chk.cov["impl_model"] = {"ok": res.ok, "violation": res.violation, "scenarios": len(implout), "outcomes_not_allowed_by_GoSync": bad[:10]}
+    if bad or not res.ok:
+        C.log("note: SemaImpl deviates from GoSync at design level: %s %s" % (res.violation, bad[:3]))
+    return implout
 
 
 if __name__ == "__main__":
